@@ -340,7 +340,8 @@ class C01(FsScenario):
     rule = ("case = (pre-existing tree, operation history generated against a model tree under the directory pacing rule over names {a,b,c} depth<=3: create/write/chmod/"
             "unlink/mkdir/makedirs/rmdir/rmtree/rename+replace/move out/move in of files and trees/drain, watch flags recursive|non-recursive x normal|full emitter x str|bytes root, "
             "pairing delay, read-buffer split policy, scheduler configuration); distinct = distinct (history digest, interleaving digest); non-trivial = a non-default scheduling "
-            "decision was taken or a fault (short read, stall) fired")
+            "decision was taken or a fault (short read, stall) fired; also: an entry that left the tree may return (moveback), special entries (FIFO, dangling link, link to a directory), "
+            "an overflow marker appended to a read (8% of the runs, nothing dropped), and in 15% of the runs a second watch on a sub-directory on the same observer")
     level_text = ("Seeded search over histories x schedules x kernel-buffer splits of the real InotifyObserver on the real kernel; oracle: replaying the delivered created/deleted/moved "
                   "events (most lenient natural semantics) over the tree at start() gives exactly the tree on disk at the final quiescence (root's direct children for a non-recursive watch).")
     level_note = "sampling, not proof; real kernel trusted as deterministic serialised component; histories limited to 3 names x depth 3, <=12 (rarely 40) operations"
@@ -455,10 +456,13 @@ class C07(FsScenario):
     design_ref = "DESIGN.md 3.1, 4/C07"
     level = "exploration"
     rule = (C01.rule + "; extended alphabet: operations on directories after they were moved out of the tree, names re-used after a drain, deletion of the root as last operation; "
-            "vanish faults: right before the library's k-th inotify_add_watch the entry it is about to watch is really removed (<=2 per run, half of the runs)")
+            "vanish faults: right before the library's k-th inotify_add_watch the entry it is about to watch is really removed (<=2 per run, half of the runs); "
+            "refused watches: the k-th inotify_add_watch after start() fails with ENOSPC/EACCES (15% of the runs; 40% of those use a directed shape: a watched directory leaves a refused one, "
+            "then an ancestor of its old path is renamed); after a root deletion half of the runs re-create the root and schedule the same watch again")
     level_text = ("Liveness under histories and transient lookup failures: no library thread ends with an uncaught exception, the run neither deadlocks nor hangs, a probe file in every directory "
-                  "that exists after the history is still reported, and after the root was deleted exactly one DirDeletedEvent(root) is delivered, the emitter and its reader thread have "
-                  "finished and nothing further is delivered.")
+                  "that exists after the history is still reported (a directory whose watch the kernel refused and what lies below it excepted), and after the root was deleted exactly one "
+                  "DirDeletedEvent(root) is delivered, the emitter and its reader thread have finished, their descriptors are closed before any stop(), nothing further is delivered, and a "
+                  "watch scheduled again on the re-created root reports.")
     level_note = C01.level_note + "; fault-free and vanish-fault configurations are counted separately in the evidence"
     weights = OUT_WEIGHTS
     nonrec_share = 0.15
